@@ -693,4 +693,15 @@ theorem framesUnique_volume {g : Geom} (hg : Admissible g) (nonempty : List Bool
           rw [this]
     · exact hab (planePosition_inj hg _ _ heq.1)
 
+theorem range_filter_gt (n p : Nat) (h : p < n) : ((List.range n).filter (fun j => decide (p < j))).length = n - 1 - p := by
+  have h1 := range_filter_lt n (p + 1) (by omega)
+  have h2 := List.length_eq_countP_add_countP (fun j => decide (j < p + 1)) (l := List.range n)
+  rw [List.countP_eq_length_filter, List.countP_eq_length_filter, List.length_range] at h2
+  have : (List.range n).filter (fun j => decide (p < j)) = (List.range n).filter (fun a => decide (¬ (decide (a < p + 1) = true))) := by
+    apply List.filter_congr
+    intro x _
+    by_cases hx : p < x <;> simp [hx] <;> omega
+  rw [this]
+  omega
+
 end HdVerif.SegFramesLemmas
